@@ -28,7 +28,10 @@ def dispatch (cmd : String) (args impl : List String) : Option (String × String
   | some pre =>
   match pre with
   -- c01.stream: the stream-level family of c04stream.go run under C01 (a lost event is passed by later commits)
-  | "c01" => if cmd = "c01.stream" then DrvC04.handle "c04.stream" args impl else DrvC01.handle cmd args impl
+  -- c01.retry: the retry family "Stop inside the back-off pause" of c09.go run under C01
+  | "c01" => if cmd = "c01.stream" then DrvC04.handle "c04.stream" args impl
+             else if cmd = "c01.retry" then DrvC09.handleTrace args impl
+             else DrvC01.handle cmd args impl
   | "c02" => DrvC02.handle cmd args impl
   | "c03" => DrvC03.handle cmd args impl
   | "c04" => DrvC04.handle cmd args impl
